@@ -275,7 +275,9 @@ theorem vName_good (s : List Char) : Good (vName s) := by
   · trivial
   · split
     · trivial
-    · exact ⟨(by decide : okRat 1 = true), allInt_cons isInt_one allInt_nil⟩
+    · split
+      · trivial
+      · exact ⟨(by decide : okRat 1 = true), allInt_cons isInt_one allInt_nil⟩
 
 /-- inside the guard, evaluation never escapes -/
 theorem evalP_benign (p : PExpr) (h : simple p = true) : Benign (evalP p) := by
@@ -286,7 +288,12 @@ theorem evalP_benign (p : PExpr) (h : simple p = true) : Benign (evalP p) := by
     rcases numValue_benign m e h with ⟨q, hq, hok⟩ | hq
     · rw [hq]; exact ⟨hok, allInt_nil⟩
     · rw [hq]; exact benign_unm
-  | name s => exact vName_good s
+  | name s =>
+    have hs : globalTypes.contains (s.map Char.toNat) = false := by simpa [simple] using h
+    simp only [evalP, hs]
+    split
+    · exact benign_upe
+    · exact vName_good s
   | neg e ih => exact benign_bind (ih (by simpa [simple] using h)) (fun v hv => vNeg_benign v hv)
   | pos e ih => exact benign_bind (ih (by simpa [simple] using h)) (fun v hv => vPos_benign v hv)
   | mul a b iha ihb =>
